@@ -133,6 +133,9 @@ def gen_case(r, script, fail_scripts, logdir):
                 attrs.append(("log", os.path.join(logdir, "calls.log")))
             if b.pattern is not None:
                 attrs.append(("check-lua-pattern", b.pattern))
+            b.severity = r.choice([None, None, None, "warning", "info", "hint"])
+            if b.severity:
+                attrs.append(("severity", b.severity))
             attrs += extra
             r.shuffle(attrs)
             b.attr_map = {}
@@ -260,14 +263,22 @@ def judge(res, files, blocks, log_lines, desc, workers, aff, safe, fl):
     if bad_outcome(res):
         return bad("C18/run-%s" % res.cls, "run ended %s: %s" % (res.cls, res.err_text()[:300]))
     if failing:
+        kinds = "+".join(sorted({b.kind for b in failing}))
         if res.rc == 0:
-            kinds = "+".join(sorted({b.kind for b in failing}))
             return bad("C18/failing-script-passed/%s" % kinds, "exit 0 although %d script(s) fail (%s)" % (len(failing), kinds))
+        dlf = diag_list(res) if res.err.strip() else None
+        if dlf is not None:
+            # exit 1 with an ordinary diagnostics report: the failure was turned into (or hidden behind) diagnostics
+            names = [b.name for b in failing]
+            quoted = [d for _f, d in dlf if any((":%s " % n) in d.get("message", "") for n in names)]
+            if quoted or not any(b.verdict == "string" and not b.failing and not getattr(b, "severity", None) for b in blocks):
+                return bad("C18/failing-script-reported-as-diagnostic/%s" % kinds,
+                           "a failing script (%s) did not fail the run: exit %d comes from diagnostics only: %s" % (kinds, res.rc, str(quoted[:1])[:200]))
         return Case(HELD, key=key, nontrivial=nontrivial, sets=sets, counters={"runs_with_failing_script": 1, "blocks": len(blocks)},
                     sample={"config": cfg, "blocks": len(blocks), "failing": [(b.name, b.kind) for b in failing], "exit": res.rc,
                             "stderr": res.err_text()[:160]})
     strings = [b for b in blocks if b.verdict == "string"]
-    want_rc = 1 if strings else 0
+    want_rc = 1 if any(not getattr(b, "severity", None) for b in strings) else 0
     dl = diag_list(res) if res.err.strip() else []
     if dl is None:
         return bad("C18/stderr-not-json", "stderr is not the diagnostics object: %s" % res.err_text()[:300])
